@@ -18,7 +18,7 @@ Extraction "model.ml"
   post_timestamp actor_timestamp activity_timestamp
   fetch_user_input source_page
   startup_error
-  update run_task settle settle_gated settle_sel is_load is_open snapshot ui_init resize view last_frame last_shown
+  update run_command run_task settle settle_gated settle_sel is_load is_open snapshot ui_init resize view last_frame last_shown
   config_fields render_with_links gem_render_with_links plain_render_with_links split_nl
   harvest harvest_fuel requests chain sp_harvest accept hex_to_ansi hook_command
   sterm_eval sterm_expect link link_block quote_block header bullet code_block superscript problem
